@@ -96,6 +96,11 @@ def r16b(ck, prog):
         return
     cfg = K.cfg
     cg = CallGraph(prog)
+    from ..lift import Lifted
+    L = Lifted(prog, cg)
+    found = L.find_call(K, "omp_set_num_threads")
+    if found and found[0][0] is not K:
+        raise AnalysisBroken("R16b: omp_set_num_threads moved into helper %s; dominance over the parallel regions is not decided across functions" % found[0][0].name)
     sets = list(K.body.calls("omp_set_num_threads"))
     where = site(prog, sets[0] if sets else K, "omp_set_num_threads")
     ck.inst("R16b", where, "kalign_run sets the OpenMP thread count %d time(s)" % len(sets), prog.config)
